@@ -3,9 +3,10 @@ import json, os, sys
 ROOT = os.path.dirname(os.path.dirname(os.path.abspath(__file__)))
 sys.path.insert(0, ROOT)
 from vlib import claims
+CL = claims.collect()
 checks = []
 for pid in claims.ALL:
-    c = claims.CLAIMS.get(pid)
+    c = CL.get(pid)
     if not c:
         continue
     checks.append(dict(property_id=pid, quick_cmd="./check %s --tier quick" % pid, thorough_cmd="./check %s --tier thorough" % pid,
@@ -13,8 +14,7 @@ for pid in claims.ALL:
                        engine="lean4+correspondence",
                        level_claimed=dict(category=c.get("category", "proof"), text=c["text"], design_ref=c["design"]),
                        level_note=c["note"], technique=c["technique"]))
-na = [dict(property_id=p, reason=claims.NA.get(p, claims.PENDING_REASON) if hasattr(claims, "NA") else claims.PENDING_REASON)
-      for p in claims.ALL if p not in claims.CLAIMS]
+na = [dict(property_id=p, reason=claims.NA.get(p, claims.PENDING_REASON)) for p in claims.ALL if p not in CL]
 hooks_commits = getattr(claims, "HOOK_COMMITS", [])
 m = dict(version=1, setup_cmd="./check setup",
          hooks=dict(guard="DATASKETCHES_VERIF", enable="-DDATASKETCHES_VERIF on every harness compile (vlib/core.py harness_flags)",
